@@ -18,6 +18,9 @@ CONSTANTS
   FixNullRequired = FALSE
   HasValidator = TRUE
   NilPointerSkipsValidation = TRUE
+  CtxChoices = {"live"}
+  GateChoices = {FALSE}
+  SilentOnCtx = {}
 INIT TableInit
 NEXT TableNext
 
